@@ -169,9 +169,15 @@ fn cmd_gen_front(args: &[String]) {
                 .into_par_iter()
                 .map(|i| {
                     let mut rng = rng_for(i);
-                    let (sets, ops) = front::random_history(&mut rng, 12, true);
+                    let (sets, ops) = if i % 3 == 0 {
+                        front::structured_history(&mut rng)
+                    } else {
+                        front::random_history(&mut rng, 12, true)
+                    };
                     builds.fetch_add(ops.len() as u64, std::sync::atomic::Ordering::Relaxed);
-                    front::run_rust_history(i + 1, &sets, &ops)
+                    // every 16th history takes its reference results from fresh processes
+                    let pr = if i % 16 == 7 { Some((self_exe.as_str(), tmp.as_str())) } else { None };
+                    front::run_rust_history_ref(i + 1, &sets, &ops, pr)
                 })
                 .collect();
             // threads and fresh processes
